@@ -189,6 +189,8 @@ fn frame_problem(got: &Value, e: &Expect) -> Option<(&'static str, String)> {
     None
 }
 
+pub use vnet::{warm_up, with_history};
+
 /// The frames captured from the scripted socket must be exactly the expected calls, in one write.
 pub fn check_frames(rep: &mut Report, prop: &str, ctx: &str, wire: &WireRef, expect: &[&Expect], outcome: Result<(), String>) {
     rep.eval(vnet::fnv(ctx.as_bytes()) ^ rep.evaluations ^ salt());
